@@ -15,6 +15,14 @@ PROPS = {
           'and all views are compared with a slice-of-rows model. Non-trivial: the initial view has offset>0 or len<cap; distinct by descriptor.',
           variants={'quick': ['plain'], 'thorough': ['plain', 'checkptr']},
           must_observe=['ops_on_offset_views', 'storage_rows_checked']),
+ 'C07': P('fault_enumeration',
+          'fidelity cases = (schema, batch-size script, destination-size script, data seed) over 10 schemas incl. gob-only and pointer types, '
+          'empty batches, sizes around 128; damage cases = every single-bit flip and every truncation point of the encoded bytes of small '
+          '3-batch streams (exhaustive per stream) and random 1-6 byte bursts on 4-batch streams. Oracle: rows delivered == rows written '
+          '(fidelity); for damage inside a batch: an error, every row delivered before it correct and not beyond the damaged batch. '
+          'Non-trivial: fidelity with >=2 batches or a destination size differing from the batch size; every damage case.',
+          variants={'quick': ['plain'], 'thorough': ['plain', 'checkptr']}, ulimit_v_kb=6000000,
+          must_observe=['bit_flips', 'truncations', 'damage_detected_as_error', 'rows_roundtripped']),
 }
 
 META = {
@@ -24,4 +32,10 @@ META = {
          'thorough adds a checkptr build for the unsafe pointer arithmetic. Held on the executions produced, not a proof.',
     note='Trusts the model (c11.go), reflect, the build shim. Frames are built over Go slices owned by the monitor.',
     technique='model-based runtime monitoring (slice-of-rows reference model, canary storage comparison, checkptr build)'),
+ 'C07': dict(
+    text='Fault enumeration: the real encoder/decoder pair is run on every single-bit flip and truncation point of small streams '
+         '(exhaustive for those streams) and on random bursts, plus a fidelity sweep over batch/destination size scripts; the oracle '
+         'is the written row sequence. Known, unrepairable-by-a-small-patch classes are listed in known_findings.json by signature.',
+    note='Trusts encoding/gob, the row model and the destination adversary (readers.go). CRC32 collisions are ignored.',
+    technique='fault-injection over the byte stream with a written-rows oracle; destination-frame canaries'),
 }
